@@ -239,7 +239,9 @@ class Oracle:
             return None
         head0 = unS(ring0[0][0]) if ring0 else ""
         # is_repeat: the previous handler call was the same binding and no argument key came in between
-        rep = (not had_arg) and self.prev is not None and self.prev[0] == k
+        # (C-w with a selection is emacs.py's _cut, without one basic.py's unix-word-rubout: two bindings)
+        eff = 20 if (k == 4 and sel0) else k
+        rep = (not had_arg) and self.prev is not None and self.prev[0] == eff
         self.rep_after_noop = rep and not self.prev_killed
         bad = self._step(k, arg, had_arg, rep, op, name, status, t0, c0, ring0, sel0, regs0, t1, c1, ring1, regs1, head0)
         # bookkeeping for the clauses that relate consecutive commands
@@ -254,13 +256,12 @@ class Oracle:
             else:
                 self.kill_base = None
             if k in (7, 17):
-                self.paste_base = (t0, c0, ring0)
-                self.npops = 0
+                self.paste_base = (t0, c0)
             elif k == 8:
                 pass
             elif (t1, c1) != (t0, c0):
                 self.paste_base = None
-            self.prev = (k, had_arg)
+            self.prev = (eff, had_arg)
             self.prev_killed = killed
         elif k == 19:
             if c1 != c0:
@@ -357,16 +358,17 @@ class Oracle:
             if sorted(map(repr, ring1)) != sorted(map(repr, ring0)):
                 return ("yank-pop lost or invented a kill-ring entry", "yankpop-multiset")
             if self.prev is not None and self.prev[0] in (7, 17, 8) and self.paste_base is not None:
-                tb, cb, rb = self.paste_base
-                if not rb:
+                # directly after a yank / yank-pop: rotate by one and show the new head at the yank position
+                # (by induction: yank; yank-pop^k shows ring[k mod n] of the ring at the yank)
+                tb, cb = self.paste_base
+                if not ring0:
                     return None if t1 == t0 else ("yank-pop with an empty ring changed the text", "yankpop-empty")
-                self.npops += 1
-                want = rb[self.npops % len(rb)]
                 if ring1 != ring0[1:] + ring0[:1]:
                     return ("yank-pop did not rotate the ring by one", "yankpop-rotate")
+                want = ring1[0]
                 if want[1] == 0 and t1 != tb[:cb] + unS(want[0]) + tb[cb:]:
-                    return ("yank; yank-pop^%d must show ring[%d mod %d] = %r at the yank position" % (
-                        self.npops, self.npops, len(rb), unS(want[0])), "yankpop-cycle")
+                    return ("yank-pop must replace the yanked text by the next ring entry %r at the yank position" % unS(want[0]),
+                            "yankpop-cycle")
                 return None
             if self.paste_base is None and (t1 != t0 or ring1 != ring0) and (self.prev is None or self.prev[0] not in (7, 17, 8)):
                 return ("yank-pop acted although the previous command was not a yank", "yankpop-without-yank")
@@ -569,7 +571,8 @@ def nav_register_probe(chk):
                     want = plain[2][0] if plain[2] else None
                     got = dict((k, v) for k, v in named[5])
                     ok_ = (st1 == st0 == 0 and named[0] == plain[0] and named[2] == []
-                           and ((want is None and not got) or (want is not None and got == {ord(reg): want})))
+                           and ((want is None and (not got or list(got) == [ord(reg)] and got[ord(reg)][0] == []))
+                                or (want is not None and got == {ord(reg): want})))
                     if st0 == 0 and not ok_:
                         what = ('Vi navigation mode, text=%r cursor=%d: keys "%s%s%s -> status=%d text=%r registers=%r; '
                                 'the same without the register prefix stores %r in the unnamed register: the named register %r must '
@@ -907,7 +910,9 @@ def replay(data):
             [(chr(k), unS(v[0]), v[1]) for k, v in snap[5]]))
         print("without the register prefix the unnamed register gets %r" % ([(unS(x[0]), x[1]) for x in plain[2]],))
         want = plain[2][0] if plain[2] else None
-        good = st == 0 and dict((k, v) for k, v in snap[5]) == ({ord(rep["vi_keys"][1]): want} if want else {})
+        got = dict((k, v) for k, v in snap[5])
+        r = ord(rep["vi_keys"][1])
+        good = st == 0 and (got == {r: want} if want else (not got or (list(got) == [r] and got[r][0] == [])))
         print("oracle ok" if good else "ORACLE FAILS: the named register does not receive that text")
         return 0 if good else 1
     case = rep["case"]
